@@ -1,41 +1,94 @@
 /-
   Streams: simulation between readers, independence of fragmentation, exact consumption, prefixes and faults
-  (the development behind C05, C06, C07).  TO BE PROVED: every `sorry` below.
+  (the development behind C05, C06, C07).
+  Helper files: Sim.lean (generic reader simulation `driveLoop_sim` / `parseWith_sim`, the scripted readers
+  against the flat reader `cutRd e`, async against blocking, `deliver`), Consume.lean (exact consumption
+  and prefixes on the flat reader).
 -/
 import IppModel.Model.Sources
 import IppModel.Lemmas.Framing
+import IppModel.Lemmas.Sim
+import IppModel.Lemmas.Consume
 namespace Ipp
 open Gen
 
+theorem asyncLoop_eq_syncLoop : asyncLoop = syncLoop := by decide
+
+theorem readExactStd_nil_fails (m : Nat) : readExactStd (m + 1) [] = .error .unexpectedEof := rfl
+theorem readExactFut_nil_fails (m : Nat) : readExactFut (m + 1) [] = .error .unexpectedEof := rfl
+theorem readExactStd_fail_fails (e : IoKind) (t : Source) (m : Nat) :
+    readExactStd (m + 1) (.fail e :: t) = .error e := rfl
+theorem readExactFut_fail_fails (e : IoKind) (t : Source) (m : Nat) :
+    readExactFut (m + 1) (.fail e :: t) = .error e := rfl
+
 theorem parseSync_flat (src : Source) (h : noFault src = true) :
     (parseSync src).mapRest Source.flat = parseFlat (Source.flat src) := by
-  sorry
+  have hs := parseWith_sim (std_cut_sim [] .unexpectedEof readExactStd_nil_fails) syncLoop
+    (Source.size src + 1) src (Source.flat src) ⟨src, by simp, h, rfl⟩
+  unfold parseSync parseFlat
+  rw [flatRd_eq_cutRd, ← size_eq_flat_length]
+  refine hs.mapRest_eq ?_
+  intro r1 r2 ⟨s', h1, _, h3⟩
+  rw [h1, List.append_nil, h3]
 
 theorem parseAsync_flat (src : Source) (h : noFault src = true) (hi : noIntr src = true) :
     (parseAsync src).mapRest Source.flat = parseFlat (Source.flat src) := by
-  sorry
+  have hs := parseWith_sim (fut_cut_sim [] .unexpectedEof readExactFut_nil_fails) syncLoop
+    (Source.size src + 1) src (Source.flat src) ⟨src, by simp, h, hi, rfl⟩
+  unfold parseAsync parseFlat
+  rw [flatRd_eq_cutRd, ← size_eq_flat_length, asyncLoop_eq_syncLoop]
+  refine hs.mapRest_eq ?_
+  intro r1 r2 ⟨s', h1, _, _, h3⟩
+  rw [h1, List.append_nil, h3]
 
 theorem parseFlat_exact (bs : Bytes) (r : Header × List Group) (rest : Bytes) (h : parseFlat bs = .ok (r, rest)) :
     ∃ pre, bs = pre ++ rest ∧ pre.getLast? = some 0x03 ∧ ∀ rest', parseFlat (pre ++ rest') = .ok (r, rest') := by
-  sorry
+  obtain ⟨pre, h1, h2, hex, _⟩ := parseFlat_consumes bs r rest h
+  refine ⟨pre, h1, h2, ?_⟩
+  intro rest'
+  unfold parseFlat
+  rw [flatRd_eq_cutRd]
+  exact hex .unexpectedEof rest' _ (Nat.lt_succ_self _)
 
 theorem parseAsync_eq_parseSync (src : Source) (hi : noIntr src = true) : parseAsync src = parseSync src := by
-  sorry
+  have hs := parseWith_sim fut_std_sim syncLoop (Source.size src + 1) src src ⟨hi, rfl⟩
+  unfold parseAsync parseSync
+  rw [asyncLoop_eq_syncLoop]
+  exact hs.eq_of_eq (fun _ _ h => h.2)
 
 theorem parseAsync_eq_parseSync_deliver (src : Source) (hi : noIntr src = true) :
     (parseAsync src).mapRest deliver = (parseSync (deliver src)).mapRest deliver := by
-  sorry
+  rw [parseAsync_eq_parseSync src hi]
+  have hs := parseWith_sim std_deliver_sim syncLoop (Source.size src + 1) src (deliver src) rfl
+  have h1 : (parseSync src).mapRest deliver = parseSync (deliver src) := by
+    unfold parseSync
+    rw [size_deliver]
+    exact hs.mapRest_eq (fun _ _ h => h)
+  rw [← h1]
+  generalize parseSync src = o
+  rcases o with ⟨⟨a, r⟩⟩ | e | _ | _ <;> simp [Outcome.mapRest, deliver_deliver]
 
 theorem parseFlat_prefix (bs : Bytes) (r : Header × List Group) (rest : Bytes) (h : parseFlat bs = .ok (r, rest))
     (k : Nat) (hk : k < bs.length - rest.length) :
     parseFlat (bs.take k) = .err (.io .unexpectedEof) := by
-  sorry
+  unfold parseFlat
+  rw [flatRd_eq_cutRd]
+  exact parseCut_prefix bs r rest h k hk .unexpectedEof _ (by simp only [List.length_take]; omega)
 
 theorem prefix_streams (bs : Bytes) (r : Header × List Group) (rest : Bytes) (h : parseFlat bs = .ok (r, rest))
     (src : Source) (hf : noFault src = true) (hk : (Source.flat src).length < bs.length - rest.length)
     (hp : Source.flat src = bs.take (Source.flat src).length) :
     parseSync src = .err (.io .unexpectedEof) ∧ (noIntr src = true → parseAsync src = .err (.io .unexpectedEof)) := by
-  sorry
+  have hpre := parseFlat_prefix bs r rest h _ hk
+  rw [← hp] at hpre
+  have key : ∀ o : Outcome ((Header × List Group) × Source),
+      o.mapRest Source.flat = .err (.io .unexpectedEof) → o = .err (.io .unexpectedEof) := by
+    intro o ho
+    rcases o with ⟨⟨a, r⟩⟩ | e | _ | _ <;> simp [Outcome.mapRest] at ho ⊢
+    exact ho
+  refine ⟨key _ ?_, fun hi => key _ ?_⟩
+  · rw [parseSync_flat src hf, hpre]
+  · rw [parseAsync_flat src hf hi, hpre]
 
 theorem fault_streams (bs : Bytes) (r : Header × List Group) (rest : Bytes) (h : parseFlat bs = .ok (r, rest))
     (src1 src2 : Source) (e : IoKind) (hf : noFault src1 = true)
@@ -43,6 +96,22 @@ theorem fault_streams (bs : Bytes) (r : Header × List Group) (rest : Bytes) (h 
     (hp : Source.flat src1 = bs.take (Source.flat src1).length) :
     (e ≠ .interrupted → parseSync (src1 ++ .fail e :: src2) = .err (.io e)) ∧
     (noIntr src1 = true → parseAsync (src1 ++ .fail e :: src2) = .err (.io e)) := by
-  sorry
+  have hfuel : (Source.flat src1).length < Source.size (src1 ++ .fail e :: src2) + 1 := by
+    rw [size_append, size_eq_flat_length src1]; omega
+  have hcut := parseCut_prefix bs r rest h _ hk e _ hfuel
+  rw [← hp] at hcut
+  constructor
+  · intro _
+    have hs := parseWith_sim (std_cut_sim (.fail e :: src2) e (readExactStd_fail_fails e src2)) syncLoop
+      (Source.size (src1 ++ .fail e :: src2) + 1) (src1 ++ .fail e :: src2) (Source.flat src1) ⟨src1, rfl, hf, rfl⟩
+    unfold parseSync
+    exact hs.err_right hcut
+  · intro hi
+    have hs := parseWith_sim (fut_cut_sim (.fail e :: src2) e (readExactFut_fail_fails e src2)) syncLoop
+      (Source.size (src1 ++ .fail e :: src2) + 1) (src1 ++ .fail e :: src2) (Source.flat src1)
+      ⟨src1, rfl, hf, hi, rfl⟩
+    unfold parseAsync
+    rw [asyncLoop_eq_syncLoop]
+    exact hs.err_right hcut
 
 end Ipp
